@@ -201,6 +201,9 @@ SmallLimit  == <<255, 255, 15>>                          \* 2^20 - 1
 SmallBits   == <<3, 0, 1048575>>                         \* 0x030fffff
 MidBits     == <<27, 0, 263371>>                         \* 0x1b0404cb, 2^-16 of the main limit
 SmallMid    == <<3, 0, 74565>>                           \* 0x012345
+ThreeQBits  == <<29, 0, 49152>>                          \* 0x1d00c000, 3/4 of the main limit: a period
+                                                         \* of 20-second blocks (no minimum-difficulty
+                                                         \* exception) retargets onto the limit itself
 
 \* period 4, spacing 10: timespan 40, clamp [10, 160], 20-second rule
 SpansA == {9, 10, 11, 40, 159, 160, 161, 800}
@@ -213,6 +216,10 @@ NetsQuick == {
   Net("plain-small",     40, 10, 4, SmallLimit, SmallBits, SmallMid, FALSE, FALSE, FALSE, 6, {-3, 10}, SpansA),
   Net("reduce-main-mid", 40, 10, 4, MainLimit, MainBits, MidBits,  TRUE,  FALSE, FALSE, 9, {1, 21}, SpansS),
   Net("bip94-main-mid",  40, 10, 4, MainLimit, MainBits, MidBits,  TRUE,  TRUE,  FALSE, 9, {1, 21}, SpansS),
+  \* the retarget lands on the limit: blocks at the limit that are NOT minimum-difficulty
+  \* exceptions, so that the walk-back must stop at the first block of the period
+  Net("reduce-main-3q",  40, 10, 4, MainLimit, MainBits, ThreeQBits, TRUE, FALSE, FALSE, 8, {20, 21}, {41, 60}),
+  Net("bip94-main-3q",   40, 10, 4, MainLimit, MainBits, ThreeQBits, TRUE, TRUE,  FALSE, 8, {20, 21}, {41, 60}),
   Net("noretarget-reg",  40, 10, 4, RegLimit, RegBits, RegBits,    TRUE,  FALSE, TRUE,  6, {-3, 1, 21}, {}) }
 
 NetsThorough == {
@@ -227,6 +234,8 @@ NetsThorough == {
   Net("bip94-main-mid",  40, 10, 4, MainLimit, MainBits, MidBits,  TRUE,  TRUE,  FALSE, 9, {1, 20, 21}, SpansQ),
   Net("bip94-p5",        50, 10, 4, MainLimit, MainBits, MidBits,  TRUE,  TRUE,  FALSE, 11, {10, 21}, {12, 13, 50, 200, 201, 900}),
   Net("bip94-noreduce",  40, 10, 4, MainLimit, MainBits, MidBits,  FALSE, TRUE,  FALSE, 9, {1, 10}, SpansA),
+  Net("reduce-main-3q",  40, 10, 4, MainLimit, MainBits, ThreeQBits, TRUE, FALSE, FALSE, 10, {1, 20, 21}, {41, 53, 54, 60}),
+  Net("bip94-main-3q",   40, 10, 4, MainLimit, MainBits, ThreeQBits, TRUE, TRUE,  FALSE, 9, {1, 20, 21}, {41, 53, 54, 60}),
   Net("noretarget-reg",  40, 10, 4, RegLimit, RegBits, RegBits,    TRUE,  FALSE, TRUE,  7, {-3, 1, 21}, {}),
   Net("noretarget-mid",  40, 10, 4, RegLimit, RegBits, MidBits,    FALSE, FALSE, TRUE,  6, {1, 21}, {}) }
 =============================================================================
